@@ -84,6 +84,19 @@ fn extra_cases(thorough: bool) -> Vec<(String, rosu_pp::Beatmap)> {
             v.push((spec.describe(), spec.decode()));
         }
     }
+    // silences longer than 2^14 (and 2^15) strain sections between two bursts: run-length limits of a strain list
+    for mode in 0..4u8 {
+        for silence in [7_000_000u32, 14_000_000] {
+            for sound in [0u8, 8] {
+                let o = |gap: u32, i: u8| vh::gen::Obj { kind: Kind::Circle, gap, pos: PosK::Far, sound: if i % 2 == 0 { sound } else { 0 }, col: i % 3 };
+                let mut objs: Vec<vh::gen::Obj> = (0..6).map(|i| o(if i == 0 { 0 } else { 110 }, i)).collect();
+                objs.push(o(silence, 0));
+                objs.extend((1..6).map(|i| o(110, i)));
+                let spec = MapSpec::new(mode, objs);
+                v.push((spec.describe(), spec.decode()));
+            }
+        }
+    }
     for mode in 0..4u8 {
         let alpha = if mode == 3 {
             vh::gen::Alphabet::product(&[Kind::Circle, Kind::Hold(300)], &[0, 125], &[PosK::Same], &[0], &[0, 2])
